@@ -1,3 +1,7 @@
 import Audit.Tool
 import Adb.Props.C20
+import Adb.Props.ParseInv
+import Adb.Props.ParseUse
 #audit_module Adb.Props.C20
+#audit_module Adb.Props.ParseInv
+#audit_module Adb.Props.ParseUse
